@@ -376,7 +376,13 @@ func c20Truncation(res *Result, pool *DrvPool, w *c20lib.Workload, b c20Bounds) 
 		return
 	}
 	// enough memory: two buffers are tried, the page is complete
-	for _, mm := range []string{"", "2097152", "67108864"} {
+	// incl. limits that are not 1 MiB times a power of two: the last buffer is
+	// clamped to maxmem and still holds the dump
+	fits := []string{"", "2097152", "67108864", fmt.Sprint(need + 1<<16), fmt.Sprint(need + 1<<18)}
+	if need < 1835008-1<<16 {
+		fits = append(fits, "1835008")
+	}
+	for _, mm := range fits {
 		q := c20lib.Req{Method: "GET", Maxmem: mm, Augment: "0"}
 		rec := c20Call(q, "GET", nil)
 		res.Eval("big|"+q.Describe(), true)
